@@ -39,7 +39,7 @@ def getenv_s (cfg : Cfg) (hasLen : Bool) (dest dmax name : Nat) (destbos : Bos) 
         else do
           -- `if (dest && dmax) strcpy_s(dest, dmax, buf);` — the result is ignored (fix: commit 18651b0; before it
           -- strcpy_s(dest, 0, buf) invoked the handler with ESZEROL and getenv_s returned EOK)
-          if dest ≠ 0 ∧ dmax ≠ 0 then do let _ ← strcpy_s cfg dest dmax value none; pure () else pure ()
+          if dest ≠ 0 ∧ dmax ≠ 0 then do let _ ← strcpy_s cfg dest dmax value (if cfg.fixInnerBos then destbos else none); pure () else pure ()
           pure (EOK, L len1)
   if dest ≠ 0 then
     let over : Bool := match destbos with
@@ -67,7 +67,7 @@ def strerror_s (cfg : Cfg) (dest dmax errnum : Nat) (destbos : Bos) (msg dots : 
   else chkDmax dmax destbos RSIZE_MAX_STR <| do
     let len ← strerrorlen_s errnum msg
     if len < dmax then do
-      let _ ← strcpy_s cfg dest dmax msg none
+      let _ ← strcpy_s cfg dest dmax msg (if cfg.fixInnerBos then destbos else none)   -- _strcpy_s_chk(dest, dmax, tmpbuf, destbos)
       pure EOK
     else if dmax > 3 then do
       let _ ← strncpy_s cfg dest dmax msg (dmax - 4) none none
